@@ -168,6 +168,8 @@ class Tr:
             return 'BBox.mk? ' + ' '.join(f'({v})' for v in vals)
         if f == 'RegionBoundingBox_from_float':
             return 'BBox.fromFloat ' + ' '.join(f'({self.expr(a)})' for a in args)
+        if isinstance(n.func, ast.Attribute) and n.func.attr == '__class__' and len(args) == 2:
+            return f'(Pt.mk {self.expr(args[0])} {self.expr(args[1])})'   # self.__class__(x, y)
         if f == 'slice' and len(args) == 2:
             return f'(Slice.mk {self.expr(args[0])} {self.expr(args[1])})'
         if f == 'np.logical_not' and len(args) == 1:
@@ -283,6 +285,8 @@ GROUPS = {'C19': [
     ('rectangle_bounding_box', 'regions.shapes.rectangle:RectanglePixelRegion.bounding_box', 'α', 'Except BBoxErr BBox'),
     ('line_bounding_box', 'regions.shapes.line:LinePixelRegion.bounding_box', 'α', 'Except BBoxErr BBox'),
     ('point_bounding_box', 'regions.shapes.point:PointPixelRegion.bounding_box', 'α', 'Except BBoxErr BBox'),
+], 'C15': [
+    ('pixcoord_rotate', 'regions.core.pixcoord:PixCoord.rotate', 'α', 'Pt α'),
 ]}
 
 
